@@ -235,7 +235,7 @@ func checkC01(c *Ctx) {
 	// "for every answer size": no reader of a peer's stream has a line limit an ordinary answer exceeds
 	scannersBounded(c, c.P.LibFns, "R-bounded-scanner")
 	c03QueueAnswered(c)
-	c15IDPresence(c) // a request whose id is taken for absent is never answered
+	c15IDPresence(c)        // a request whose id is taken for absent is never answered
 	c17NoTransportReplay(c) // a request net/http may replay on its own reaches the handler twice
 	c05Pending(c)
 	c05PendingKey(c)
